@@ -135,6 +135,13 @@ Theorem C04_extended_generic_sources : forall prec p s a, 1 < prec -> 2 <= p <= 
   exists r, ex_init prec p s a = Some r /\ residue p a r.
 Proof. exact ex_init_generic_correct. Qed.
 Print Assumptions C04_extended_generic_sources.
+Theorem C04_extended_every_source : forall prec p s a, 1 < prec -> 2 <= p <= 2 ^ (prec - 1) -> ex_every_ok prec s a ->
+  exists r, ex_init prec p s a = Some r /\ residue p a r.
+Proof. exact ex_init_every_source. Qed.
+Print Assumptions C04_extended_every_source.
+Theorem C04_extended_mOne : forall prec p, 1 < prec -> 2 <= p <= 2 ^ (prec - 1) -> residue p (-1) (mone (RExt prec) p).
+Proof. exact ex_mone_correct. Qed.
+Print Assumptions C04_extended_mOne.
 (* the upper comparison of the tail must be `>=`: the tail value IS p for an exact multiple of p (p = 49, a = 49, double) *)
 Theorem C04_extended_reduce_upper_comparison_must_be_ge : exists p a, 2 <= p <= 2 ^ 50 - 1 /\ 0 < a < 2 ^ 32 /\ ex_tail 53 p a = p /\ a mod p = 0.
 Proof. exact ex_ge_needed. Qed.
